@@ -731,6 +731,8 @@ pub fn faults_cmd(args: &[String]) {
     let n: usize = arg(args, "--n").and_then(|s| s.parse().ok()).unwrap_or(100);
     let mode = arg(args, "--mode").unwrap_or("light");
     let classes: Option<Vec<&str>> = arg(args, "--classes").map(|c| c.split(',').collect());
+    // --only <prefix>: restrict field faults to fields whose name starts with the prefix (e.g. "hdr.")
+    let only: Option<&str> = arg(args, "--only");
     let mut out = Out::new(arg(args, "--out").unwrap_or("-"));
     let mut r = StdRng::seed_from_u64(seed ^ 0xfa17);
     let mut all: Vec<(Value, Vec<u8>)> = vec![];
@@ -747,6 +749,11 @@ pub fn faults_cmd(args: &[String]) {
                 for f in &enc.fields {
                     if f.width == 0 {
                         continue;
+                    }
+                    if let Some(pfx) = only {
+                        if !f.name.starts_with(pfx) {
+                            continue;
+                        }
                     }
                     if let Some(cl) = &classes {
                         if !cl.contains(&f.class) {
